@@ -49,6 +49,7 @@ def ofTreeTagged : Tree → List Char → Val × List Char
   | .atom b, tags =>
     match tags with
     | 'H' :: ts => if b.length ≥ 1 then (.atom b false, ts) else (mkAtom b, ts)
+    | 'E' :: ts => (.atom b false, ts)  -- a substring view of any length, including the empty one
     | _ :: ts => (mkAtom b, ts)
     | [] => (mkAtom b, [])
   | .pair l r, tags =>
